@@ -236,9 +236,9 @@ def run_c37(pid, tier, replay):
             ("exh22", "MCReportRT", RT_CFG % dict(plain, files="FilesAE", maxdiags=2, budget=2, maxanns=2, maxedits=1,
                                                     maxtexts=1, stages="0", exportmin=1), None, None),
             ("sim", "MCReportRT", RT_CFG % dict(rich, files="FilesABE", maxdiags=4, budget=14, maxanns=3, maxedits=2,
-                                                  maxtexts=2, stages="0, 1", exportmin=2), 80, 24),
+                                                  maxtexts=2, stages="0, 1", exportmin=2), 300, 24),
         ]
-        ops = None   # operation sequences run under C36 in the quick tier
+        ops = dict(maxdiags=3, maxops=6, dist=1, basetag="t", num=40)
     verdict = vf.Verdict(pid)
     states = trans = ncases = checks = 0
     feats = set()
@@ -379,7 +379,8 @@ def run_c36(pid, tier, replay):
         canon_runs = [("d2n3", dict(maxdiags=3, dist=2, exportmin=1, basetag="")),
                       ("d1n4", dict(maxdiags=4, dist=1, exportmin=4, basetag="t"))]
     else:
-        canon_runs = [("d1n3", dict(maxdiags=3, dist=1, exportmin=1, basetag="t"))]
+        canon_runs = [("d1n3", dict(maxdiags=3, dist=1, exportmin=1, basetag="t")),
+                      ("d2n2", dict(maxdiags=2, dist=2, exportmin=2, basetag=""))]
     canon_cases = canon_calls = tie_cases = 0
     selftested = False
     for name, p in canon_runs:
@@ -431,9 +432,9 @@ def run_c36(pid, tier, replay):
         reps, wsworkers = 3, 12
     else:
         ws_runs = [
-            ("n234", dict(n="2, 3, 4", kinds=ALL_KINDS, maximports=2, rev="FALSE, TRUE"), 40, 6, 30, 10),
+            ("n234", dict(n="2, 3, 4", kinds=ALL_KINDS, maximports=2, rev="FALSE, TRUE"), 80, 6, 70, 15),
         ]
-        pars = "1,2,3,4,8,16"
+        pars = "1,2,3,4,6,8,12,16"
         reps, wsworkers = 2, 8
     ws_cases = ws_compiles = ws_cyclic = ws_diff = 0
     shapes = set()
